@@ -285,13 +285,18 @@ int32_t jls_buf_rd_str(struct jls_buf_s * self, const char ** value) {
     char ch;
     while (self->cur != self->end) {
         if (s->cur >= buf_end) {
-            ROE(strings_alloc(self));
-            // copy over partial.
-            while (str <= buf_end) {
-                *self->strings_tail->cur++ = *str++;
+            char * partial_end = s->cur;
+            if (str == s->buffer) {
+                return JLS_ERROR_TOO_BIG;  // longer than a string block
             }
+            ROE(strings_alloc(self));
             s = self->strings_tail;
-            str = self->strings_tail->buffer;
+            buf_end = s->buffer + sizeof(s->buffer) - 1;
+            // copy over partial.
+            while (str < partial_end) {
+                *s->cur++ = *str++;
+            }
+            str = s->buffer;
         }
 
         ch = (char) *self->cur++;
